@@ -28,7 +28,7 @@
 (* The environment (server) chooses every reply freely.                           *)
 EXTENDS Naturals, Sequences, FiniteSets, TLC
 
-CONSTANTS Versions,      \* protocol versions explored, subset of 1..6
+CONSTANTS Versions,      \* protocol versions explored: subset of 1..6 and 65, 66 (DSE_V1 = 0x41, DSE_V2 = 0x42)
           MaxLen,        \* bound on the number of server replies
           Fine,          \* BOOLEAN: failure path and factory wake-up as separate steps
           EarlySet,      \* BOOLEAN: (witness only) connected_event set before last_error is recorded
@@ -44,6 +44,7 @@ Outcomes     == {"pending", "ready", "auth_failed", "conn_error"}
 
 Configs == [ver : Versions, auth : AuthKinds, comp : CompSettings, local : SUBSET Algos]
 
+\* checksummed segment framing is defined by native protocol v5+ only; the DSE versions (numerically above) do not have it
 Cks(v) == v >= 5 /\ v < 65                 \* ProtocolVersion.has_checksumming_support
 
 R(k, algos, kind) == [k |-> k, algos |-> algos, kind |-> kind]
